@@ -55,7 +55,7 @@ def r1_add_or_replace(ctx, f, rep, eff):
         done = False
         for p in ctx.paths(f, cb, 'none'):
             for e in p.calls():
-                if e['res'] == 'broadcast::Broadcasts::add_or_replace' and e['block'] == bi and not done:
+                if e['res'] == 'broadcast::Broadcasts::add_or_replace' and e['tblock'] == bi and not done:
                     done = True
                     n += 1
                     mt = e['args'][3]
@@ -117,21 +117,31 @@ def r2_accounting(ctx, f, rep):
                 # the fit test
                 fit = None
                 for c in evs:
-                    if c['kind'] != 'cond' or c['expr'][0] != 'binop' or c['expr'][1] != 'Ge':
+                    if c['kind'] != 'cond':
                         continue
-                    a, b_ = c['expr'][2], c['expr'][3]
-                    if a[0] == 'call' and calls[a[1]]['decl'].endswith('remaining_mut'):
-                        rhs = b_
-                        k = 0
-                        if rhs[0] == 'binop' and rhs[1] == 'Add' and rhs[3][0] == 'const':
-                            k, rhs = rhs[3][2], rhs[2]
-                        is_len = rhs[0] == 'call' and calls[rhs[1]]['res'] == 'alloc::vec::Vec::len' and \
-                            q.field_path(calls[rhs[1]]['args'][0][1])[1][-1:] == ['data']
-                        if is_len and k == prefix:
-                            fit = q.cond_truth(c)
-                        else:
-                            rep.violation('C15-R2', fn, 'fit-test-shape', 'fit test is not remaining_mut() >= data.len()%s'
-                                          % (' + 2' if prefix else ''), site=c['span'], facts={'test': q.describe(p, c['expr'], b)})
+                    nrm = q.cmp_norm(c)
+                    if nrm is None:
+                        continue
+                    rel, a, b_ = nrm
+                    isrem = lambda v: v[0] == 'call' and v[1] in calls and calls[v[1]]['decl'].endswith('remaining_mut')
+                    if not (isrem(a) or isrem(b_)):
+                        continue
+                    # fits: remaining_mut >= need ; does not fit: need > remaining_mut
+                    rhs = b_ if isrem(a) else a
+                    fits_here = isrem(a) and rel == 'ge'
+                    nofit_here = isrem(b_) and rel == 'gt'
+                    k = 0
+                    if rhs[0] == 'binop' and rhs[1] == 'Add' and rhs[3][0] == 'const':
+                        k, rhs = rhs[3][2], rhs[2]
+                    elif rhs[0] == 'binop' and rhs[1] == 'Add' and rhs[2][0] == 'const':
+                        k, rhs = rhs[2][2], rhs[3]
+                    is_len = rhs[0] == 'call' and rhs[1] in calls and calls[rhs[1]]['res'] == 'alloc::vec::Vec::len' and \
+                        q.field_path(calls[rhs[1]]['args'][0][1])[1][-1:] == ['data']
+                    if is_len and k == prefix and (fits_here or nofit_here):
+                        fit = fits_here
+                    else:
+                        rep.violation('C15-R2', fn, 'fit-test-shape', 'fit test is not remaining_mut() >= data.len()%s'
+                                      % (' + 2' if prefix else ''), site=c['span'], facts={'test': q.describe(p, c['expr'], b)})
                 if fit is None:
                     if any(x['kind'] == 'call' and x['decl'] == 'bytes::BufMut::put_slice' for x in evs):
                         rep.violation('C15-R2', fn, 'write-without-fit-test', 'an entry is written without a fit test',
@@ -269,7 +279,7 @@ def r4_r5_consumers_enqueuers(ctx, f, rep):
     for cb, bi, t in f.callers_of(lambda x: x == 'broadcast::Broadcasts::add_or_replace'):
         for p in ctx.paths(f, cb, 'none'):
             for i, e in enumerate(p.events):
-                if e['kind'] == 'call' and e['res'] == 'broadcast::Broadcasts::add_or_replace' and e['block'] == bi and \
+                if e['kind'] == 'call' and e['res'] == 'broadcast::Broadcasts::add_or_replace' and e['tblock'] == bi and \
                         e['args'][0] == ('ref', q.self_field('updates'), True):
                     sites.setdefault(cb.nname, []).append((p, i, e))
     rep.check(sorted(sites) == ['Foca::change_identity', 'Foca::handle_apply_summary', 'Foca::leave_cluster'], 'C15-R5',
